@@ -77,7 +77,7 @@ def run(rep, tier):
     jobs.append((builds[0], dict(group="asconcrypt", level="O0")))
     jobs.append((builds[0], dict(group="asconsum", level="O0")))
     lowered = repo.lower_many(jobs)
-    for r in ("C12.D1", "C12.D1m", "C12.D2", "C12.D3", "C12.D4", "C12.D6", "C12.D7", "C12.D8"):
+    for r in ("C12.D1", "C12.D1m", "C12.D2", "C12.D3", "C12.D4", "C12.D6", "C12.D7", "C12.D8", "C12.D9"):
         rep.rule(r, {"C12.D1": "constant subscript inside its array",
                      "C12.D1m": "constant-extent block operation inside its object/member",
                      "C12.D2": "guard-bounded variable subscript below the array bound",
@@ -85,6 +85,7 @@ def run(rep, tier):
                      "C12.D4": "shift amount below operand width",
                      "C12.D6": "constant-extent access fits the guard-bounded remaining length",
                      "C12.D8": "length arithmetic keeps the full width of size_t (no zero-extended 32-bit mask)",
+                     "C12.D9": "caller-supplied byte buffers are accessed with no alignment assumption",
                      "C12.D7": "bytes a callee always accesses through a pointer parameter fit the object passed at each call site"}[r])
     for (b, kw), lr in zip(jobs, lowered):
         m = ir.Module.load(lr.json)
@@ -110,6 +111,7 @@ def run(rep, tier):
                 rule_output_range(rep, m, f, dd, cname)
         rule_strlen_sub(rep, m, cname)
         rule_param_extent(rep, m, cname)
+        rule_alignment(rep, m, cname)
         lri = repo.lower(b, inline_internal=True, **kw)
         widths.rule(rep, "C12.D8", ir.Module.load(lri.json), cname, inlined=True)
     control_d6(rep)
@@ -117,6 +119,40 @@ def run(rep, tier):
     rep.floor("C12.D1", 2000)
     rep.floor("C12.D1m", 300)
     rep.floor("C12.D2", 20)
+
+
+def rule_alignment(rep, m, cname):
+    """D9: buffers that reach the library as pointers to bytes (unsigned char *,
+    char *, void *) may have any alignment.  An access of more than one byte
+    whose address derives from such a parameter must therefore carry alignment
+    1 in the IR (byte-wise code, memcpy, or a packed / unaligned type): a plain
+    `*(uint64_t *)p` on a byte pointer is undefined behaviour for a misaligned
+    buffer and traps on strict-alignment CPUs."""
+    rid = "C12.D9"
+    n = 0
+    for f in m.defined():
+        if not f.srcfile.startswith(repo.REPO):
+            continue
+        bytep = [p for k, p in enumerate(f.params) if f.param_ty[k] == "i8*"]
+        if not bytep:
+            continue
+        R = None
+        for i in f.insts():
+            if i.op not in ("load", "store") or (i.d.get("sz") or 0) <= 1:
+                continue
+            R = R or ptr.resolver(f)
+            pv = R.resolve(i.ops[0] if i.op == "load" else i.ops[1])
+            root = pv.single()
+            if not root or root[0] != "param" or root[1] not in bytep:
+                continue
+            n += 1
+            al = i.d.get("align")
+            if al is not None and al > 1:
+                rep.violation(rid, "%s:%s%d" % (f.name, i.op, i.d["sz"]), i.where(),
+                              "%s %ss %d bytes at once through its byte-pointer parameter %s assuming %d-byte alignment: callers may "
+                              "pass buffers of any alignment (undefined behaviour; a trap on strict-alignment CPUs)" % (
+                                  f.name, i.op, i.d["sz"], f.param_names[f.params.index(root[1])], al), config=cname)
+    rep.instance(rid, 1, {"config": cname, "wide_accesses_through_byte_parameters": n})
 
 
 def rule_param_extent(rep, m, cname):
